@@ -17,5 +17,9 @@ def run(ctx):
     bingate_rule.check(ctx, P)
     sf = [f for f in P.all_funcs() if f.q.startswith("abigail::suppr::") or "suppression" in (f.cls or "")]
     k = memokey_rule.check(ctx, P, sf)
+    kp = memokey_rule.check_memoparam(ctx, P, sf)
+    ctx.note("R-MEMOKEY (path form): %d member function(s) of the suppression classes return a member that they fill from a "
+             "parameter (0 on the tree this was written for; the seeded variant C24-insertion-ranges-evaluated-once is the "
+             "positive example of the thorough tier)" % kp)
     ctx.floor("R-MEMOKEY", "lazy caches in the suppression classes", k, 10)
     ctx.assume("insertion-range arithmetic (has_data_member_inserted_*) is evaluated on runtime offsets and is not decided")
